@@ -94,6 +94,8 @@ def _features(cases):
             walk(g["t"], 0)
             for ty in g.get("typed", []):
                 ft["typed_good" if ty["good"] else "typed_bad"] += 1
+                if ty["good"] == 2:
+                    ft["typed_wide"] = ft.get("typed_wide", 0) + 1
             ft["c_comment"] += b"/*" in f
             ft["cpp_comment"] += b"//" in f
             ft["crlf"] += b"\r\n" in f
@@ -203,7 +205,7 @@ def run(ctx):
         "fresh state per file = fork() of a harness process that has only registered the typed settings (and log.c's own 'logs' section)",
         "names differing only in letter case are not generated for the real parser; the empty string as a name, NUL bytes, raw control "
         "characters inside quotes, escapes other than \\a \\b \\f \\n \\r \\t \\v \\xHH \\\" \\\\ are not generated",
-        "integers are written in decimal (strtoul base 0 also takes 0x.. and 0.. forms: not generated); typed values stay below 2^31",
+        "integers are written in decimal (strtoul base 0 also takes 0x.. and 0.. forms: not generated); typed values below 2^31 are drawn pseudo-randomly; intervals and volumes from 2^31 to 2^32 - 1 come from ConfSyntax!WidePool (largest fitting count of every unit, 2^31, 2^32 - 1; decimal digit sequences with schoolbook arithmetic, since TLC integers are 32 bits wide)",
         "ASan: detect_leaks=0 (leaks are not part of this property)",
     ]
 
